@@ -210,6 +210,8 @@ Proof.
     cbn [apply]. destruct (cc_outQ c) as [|o q] eqn:Q; [exact E|].
     pose proof (es_q _ E) as QQ. rewrite Q in QQ. inversion QQ as [|? ? QO QT]; subst.
     apply ES_note; [apply qclass_no_sid; exact QO|]. apply (ES_same c); try reflexivity; auto.
+  - (* MWlReset: RST_STREAM is not a frame of the stream's HEADERS/DATA sequence *)
+    cbn [apply]. apply ES_note; [reflexivity | exact E].
   - (* MOutQDrop *)
     apply (ES_same c); try reflexivity; auto. cbn [apply]. cc_cbn. intro H. destruct (cc_outQ c); [exact H | inversion H; assumption].
   - (* MRecvData *)
@@ -405,6 +407,7 @@ Proof.
   - destruct (quietb o) eqn:Q; [|destruct HI]. destruct HI as [->|[]]. discriminate.
   - destruct (cc_outQ c) as [|o q] eqn:Q; [destruct HI|]. destruct HI as [->|[]].
     pose proof (es_q _ _ E) as QQ. rewrite Q in QQ. inversion QQ as [|? ? QO QT]. destruct QO.
+  - (* MWlReset *) destruct HI as [X|[]]. discriminate.
   - destruct V as (pb & G & _). rewrite G in HI. destruct wr; [|destruct HI].
     destruct (write_data_shape (cc_maxFrame c) id (cs_chunk c pb) (cs_end c pb)) as (l & A & _ & C & _).
     rewrite A in HI. apply in_frames_of in HI. destruct HI as (x & HX & X). inversion X; subst.
